@@ -24,7 +24,7 @@ MANIFEST = dict(
     technique="TLA+ specs CallPartition (caller-facing writer/reader contract, all call scripts) and FilterStream (BCJ/Delta writer per-call state) model-checked with TLC; every TLC-enumerated call script replayed into every real writer and reader; API-level traces validated by TLC (Trace_CallPartition, Trace_FilterStream)",
     text="TLC enumerates every partition of <= 6 (thorough: 8) abstract input units into write() calls with empty writes and flush() interleaved, and every read-size sequence over {0,1,2,3,>stream}, and checks the contract (content = concatenation of slices, nothing lost at flush/finish; bytes independent of the read sizes, zero-length read is a no-op, end of stream sticky) in every state. FilterStream.tla models BCJWriter::write and DeltaWriter::write per call as coded and as intended; TLC decides PartitionIndependent / ShortWriteSafe / DeltaHistory for all head placements, partitions and sink acceptance patterns in small scope. Each exported script is replayed with rescaled sizes (1, primes, 4095/4096/4097, 65537, > stream) on all real writers and readers with byte-level oracles, and recorded API traces are accepted by the trace specifications (for the filter writers with B=4096 and the real K/A, including the model's prediction of which partitions change the output).",
     ref="4.10, 6/C07",
-    note="Small-scope: scripts of <= 9 (11) calls over <= 6 (8) units, <= 1 empty write and <= 2 flushes per script; the relation between encoded bytes forwarded and units consumed is not modelled (hidden behind the writer's nondeterministic Forward). MT writers and readers are driven outside a deterministic-runtime session (real threads).",
+    note="Quick replays a sample of the exported writer scripts (about 3500 at 6 units): short scripts exhaustively with three non-uniform size tables on the plain LZMA2 / XZ writers, the rest rotating over writers and unit sizes. Small-scope: scripts of <= 9 (11) calls over <= 6 (8) units, <= 1 empty write and <= 2 flushes per script; the relation between encoded bytes forwarded and units consumed is not modelled (hidden behind the writer's nondeterministic Forward). MT writers and readers are driven outside a deterministic-runtime session (real threads).",
     ready=True,
 )
 
@@ -105,7 +105,7 @@ def writer_cases(scripts, tier, rnd):
     for i, sc in enumerate(scripts):
         units = sum(k for (op, k) in sc if op == "w")
         for t, (target, opts, cls) in enumerate(WRITER_TARGETS):
-            if quick and (i + t) % 3 != 0:
+            if (i + t) % (12 if quick else 3) != 0:
                 continue
             u = UNITS[(i + 2 * t) % len(UNITS)]
             ws = [(k * u if op == "w" else 0 if op == "e" else -1) for (op, k) in sc]
@@ -114,7 +114,7 @@ def writer_cases(scripts, tier, rnd):
                           "data": {"gen": cls if cls != "dense" else "dense", "len": units * u, "seed": 1000 + i, "arch": "x86"},
                           "fam": target, "unit": u, "si": i})
         for t, arch in enumerate(ARCHS + ["delta"]):
-            if quick and (i + t) % 3 != 1:
+            if (i + t) % (12 if quick else 3) != 1:
                 continue
             u = UNITS[(i + t) % len(UNITS)]
             ws = [(k * u if op == "w" else 0 if op == "e" else -1) for (op, k) in sc]
@@ -127,26 +127,37 @@ def writer_cases(scripts, tier, rnd):
     # with 1..3 byte slices. With flushes this isolates tiny pieces in mid-stream after real data (LZMA2 chunk kinds
     # LZMA, uncompressed, LZMA; a block / member that receives a few bytes after a flush).
     tab_targets = [t for t in WRITER_TARGETS if t[0] in ("lzma2", "xz", "lzip", "lzma2mt", "lzipmt")]
+    primary_idx = [next(j for j, t in enumerate(tab_targets) if t[0] == "lzma2"), next(j for j, t in enumerate(tab_targets) if t[0] == "xz")]
     for i, sc in enumerate(scripts):
         if not any(op == "f" for (op, _) in sc):
             continue
+        short = len(sc) <= 5
         for t, (target, opts, cls) in enumerate(tab_targets):
-            if quick and (i + t) % 2 != 0:
+            # short scripts: every table on the plain LZMA2 and XZ writers (table and target must not be coupled through
+            # the script index); longer scripts and the other configurations rotate
+            primary = t in primary_idx
+            if primary and short:
+                tables = range(len(WRITE_TABLES))
+            elif (i + t) % (24 if quick else 4) == 0:
+                tables = [(i // 7 + t) % len(WRITE_TABLES)]
+            else:
                 continue
-            tab = WRITE_TABLES[(i + t) % len(WRITE_TABLES)]
-            ws = [(tab[k] if op == "w" else 0 if op == "e" else -1) for (op, k) in sc]
-            total = sum(x for x in ws if x > 0)
-            cases.append({"bin": "vh_part", "mode": "writer", "target": target, "opts": opts, "script": ws,
-                          "data": {"gen": "text", "len": total, "seed": 8000 + i, "arch": "x86"},
-                          "fam": target, "unit": "table%d" % ((i + t) % len(WRITE_TABLES)), "si": i})
+            for tn in tables:
+                tab = WRITE_TABLES[tn]
+                ws = [(tab[k] if op == "w" else 0 if op == "e" else -1) for (op, k) in sc]
+                total = sum(x for x in ws if x > 0)
+                cases.append({"bin": "vh_part", "mode": "writer", "target": target, "opts": opts, "script": ws,
+                              "data": {"gen": ["text", "dense", "mixed"][(i + tn) % 3], "len": total, "seed": 8000 + i, "arch": "x86"},
+                              "fam": target, "unit": "table%d" % tn, "si": i})
     for j, c in enumerate(cases):
         c["id"] = f"w{j}"
     return cases
 
 
+# abstract slice size -> bytes; in every table size 1 (and one more) is a 1..3 byte piece and sizes 2, 3 are real data
 WRITE_TABLES = [{1: 2, 2: 3000, 3: 70000, 4: 1, 5: 9000, 6: 200000, 7: 3, 8: 40000},
-                {1: 1, 2: 70000, 3: 3, 4: 5000, 5: 2, 6: 100000, 7: 66000, 8: 1},
-                {1: 3, 2: 200000, 3: 1, 4: 66000, 5: 2500, 6: 2, 7: 8192, 8: 4097}]
+                {1: 1, 2: 70000, 3: 5000, 4: 3, 5: 2, 6: 100000, 7: 66000, 8: 1},
+                {1: 3, 2: 200000, 3: 66000, 4: 2500, 5: 1, 6: 2, 7: 8192, 8: 4097}]
 # source chunk patterns that end the reader's filter calls at every offset relative to an instruction
 SWEEP_CHUNKS = [[3], [5, 2], [7, 1, 4], [6], [2, 9], [4, 8, 1], [11], [13, 3], [0], [4095, 7, 1], [10, 1, 1], [9]]
 READ_TABLES = [{0: 0, 1: 1, 2: 4096, 3: 4097, 99: 1 << 20}, {0: 0, 1: 13, 2: 4095, 3: 7, 99: 1 << 22},
